@@ -14,6 +14,7 @@ import (
 	_ "verifharness/engines/lookup"
 	_ "verifharness/engines/net"
 	_ "verifharness/engines/stateproof"
+	_ "verifharness/engines/history"
 	_ "verifharness/engines/store"
 	_ "verifharness/engines/table"
 )
